@@ -16,6 +16,10 @@ import (
 	"time"
 )
 
+// MaxDownstreamFragmentSize is the largest downstream fragment a client may ask for. A DNS message
+// cannot carry more than 64 KiB anyway.
+const MaxDownstreamFragmentSize = 65535
+
 var ConnectionTimeout = 5 * time.Minute          // ConnectionTimeout specifies that connections will timeout 2 minutes after we've seen the last contact from the user
 var OldConnectionTimeout = 6 * ConnectionTimeout // Old connections will also timeout after a certain time
 
@@ -305,6 +309,9 @@ func (s *ServerDnsListener) setOptionsRequest(v *commands.SetOptionsRequest, m *
 	} else if v.Closed != nil && *v.Closed == true {
 		log.Debugf("Client-initiated closing of the connection.")
 		_ = s.closeConnection(user)
+	} else if v.DownstreamFragmentSize != nil && (*v.DownstreamFragmentSize < 1 || *v.DownstreamFragmentSize > MaxDownstreamFragmentSize) {
+		// The fragment size is the chunk size of everything we send to this client
+		resp.Err = commands.BadFrag
 	} else {
 		logString := "SetOptions(user=#%d"
 		logData := make([]interface{}, 0)
@@ -345,6 +352,8 @@ func (s *ServerDnsListener) testDownstreamFragmentSize(v *commands.TestDownstrea
 	u, err := s.validateAndGetUser(v.UserId, remoteAddr)
 	if err != nil {
 		resp.Err = err
+	} else if v.FragmentSize > MaxDownstreamFragmentSize {
+		resp.Err = commands.BadFrag
 	} else {
 		resp.Data = make([]byte, v.FragmentSize)
 		v := byte(107)
